@@ -83,6 +83,8 @@ fn run() {
         };
         let r = dispatch(&line);
         writeln!(out, "{}", r).unwrap();
+        // flush per answer so that a hang or abort is attributable to one request
+        out.flush().unwrap();
     }
     out.flush().unwrap();
 }
